@@ -21,7 +21,7 @@ pub struct PoolEnr {
 
 /// Records per key slot: a record is only ever used as the value of one key (in the real system
 /// the key is the record's node id), in `VARIANTS` versions that differ in their addresses.
-pub const VARIANTS: usize = 4;
+pub const VARIANTS: usize = 5;
 pub const SLOTS: usize = 256;
 
 pub fn make_pool() -> Vec<PoolEnr> {
@@ -33,13 +33,19 @@ pub fn make_pool() -> Vec<PoolEnr> {
                 0 => Some(Ipv4Addr::new(10, 0, 0, (slot % 250) as u8 + 1)),
                 1 => Some(Ipv4Addr::new(10, 0, (slot % 2) as u8, (slot % 250) as u8 + 1)),
                 2 => Some(Ipv4Addr::new(192, 168, (slot % 3) as u8, 7)),
+                // an IPv4 address without a UDP port (tcp only): it still has a /24
+                4 => Some(Ipv4Addr::new(10, 0, 0, (slot % 250) as u8 + 1)),
                 _ => None,
             };
             let mut b = Enr::builder();
             b.seq(v as u64 + 1);
             if let Some(ip) = ip {
                 b.ip4(ip);
-                b.udp4(9000);
+                if v == 4 {
+                    b.tcp4(9000);
+                } else {
+                    b.udp4(9000);
+                }
             }
             if v == 3 && slot % 2 == 0 {
                 b.ip6("2001:db8::1".parse().unwrap());
@@ -905,7 +911,7 @@ pub fn gen_case(rng: &mut Rng, pool_len: usize, focus: &str, nops: usize) -> Gen
     let pick_val = |rng: &mut Rng, slot: usize| -> usize {
         // mostly subnet A (variant 0) so that the limits are reached
         let v = if filters {
-            *rng.pick(&[0usize, 0, 0, 0, 1, 1, 2, 3])
+            *rng.pick(&[0usize, 0, 0, 4, 4, 1, 1, 2, 3])
         } else {
             rng.below(VARIANTS as u64) as usize
         };
@@ -913,7 +919,23 @@ pub fn gen_case(rng: &mut Rng, pool_len: usize, focus: &str, nops: usize) -> Gen
     };
     // scripted preambles, then random operations
     let slot_of = |j: usize, i: usize| (offset[j] + i) % (SLOTS - 1);
-    if scripted_c16 {
+    if scripted_c16 && rng.chance(1, 3) {
+        // bucket `focus_b`: two subnet-A nodes and 14 nodes without IPv4, head disconnected; a
+        // candidate without IPv4 becomes pending; its record is then updated into subnet A (or a
+        // member's record is), its timeout elapses: the promotion must be refused by the bucket filter
+        let tcp_only = rng.chance(1, 3);
+        let a_var = if tcp_only { 4 } else { 0 };
+        for i in 0..16 {
+            let var = if i == 5 || i == 9 { a_var } else { 3 };
+            ops.push(Op::InsertOrUpdate(keys[focus_b][i], slot_of(focus_b, i) * VARIANTS + var, i >= 3 && rng.chance(2, 3), false));
+        }
+        ops.push(Op::InsertOrUpdate(keys[focus_b][16], slot_of(focus_b, 16) * VARIANTS + 3, true, false));
+        ops.push(Op::UpdateNode(keys[focus_b][16], slot_of(focus_b, 16) * VARIANTS + if rng.chance(1, 2) { 0 } else { 4 }, None));
+        ops.push(Op::ForceReady(bucket_choice[focus_b]));
+        ops.push(Op::Iter);
+        // and a third subnet-A member offered directly
+        ops.push(Op::InsertOrUpdate(keys[focus_b][17], slot_of(focus_b, 17) * VARIANTS + a_var, true, false));
+    } else if scripted_c16 {
         // bucket `focus_b` is filled with 16 nodes without IPv4 (head disconnected), the other
         // buckets receive subnet-A nodes; the random phase then adds pending candidates.
         for i in 0..16 {
